@@ -84,6 +84,10 @@ Definition set_latest v t :=
 Definition set_committed t :=
   {| t_h := t_h t; t_cm := t_cm t; t_pp := t_pp t; t_p := t_p t; t_c := t_c t; t_vc := t_vc t;
      t_prepared := t_prepared t; t_latest := t_latest t; t_committed := true |}.
+Definition has_p (t : tstate) (v x i : N) : bool := memN i (map s_id (bucket (t_p t) v x)).
+Definition has_c (t : tstate) (v x i : N) : bool := memN i (map s_id (bucket (t_c t) v x)).
+Definition has_vc (t : tstate) (v i : N) : bool := memN i (map (fun e => s_id (v_snd (fst e))) (votes_of t v)).
+Definition has_pp (t : tstate) (v : N) : bool := match get_pp t v with Some _ => true | None => false end.
 Definition new_tstate (h : N) (cm : committee) : tstate :=
   {| t_h := h; t_cm := cm; t_pp := []; t_p := []; t_c := []; t_vc := []; t_prepared := None; t_latest := 0; t_committed := false |}.
 
@@ -94,6 +98,7 @@ Inductive out :=
 | ONewRound (h : N) (prev : option block) (lead : bool)                   (* new-consensus-round callback *)
 | OArm (h v : N)                                                          (* electionTrigger.RegisterOnElection *)
 | OStop                                                                   (* electionTrigger.Stop (term disposed) *)
+| OStore (kind height view hash sender : N)                                      (* Storage.Store* returned true (kind = message type) *)
 | OPanic.
 
 Record node := {
@@ -213,78 +218,90 @@ Definition canon_msg (m : msg) : msg :=
   | _ => m
   end.
 
+(* ---- the term as a pure state machine ----
+   [tc] is what a handler of TermInCommittee reads and writes: the term's storage and flags, the State view,
+   the count of RequestNewBlockProposal calls, the outputs produced so far (newest first) and, once the term
+   has committed, the committed block. Committing is the last thing any handler does (checkCommitted is in tail
+   position everywhere), so the start of the next round is applied by the node after the handler returns. *)
+Record tc := { tc_t : tstate; tc_v : N; tc_fresh : N; tc_out : list out; tc_commit : option block }.
+
+Definition tc_emit (o : out) (x : tc) : tc :=
+  {| tc_t := tc_t x; tc_v := tc_v x; tc_fresh := tc_fresh x; tc_out := o :: tc_out x; tc_commit := tc_commit x |}.
+Definition tc_set_t (t : tstate) (x : tc) : tc :=
+  {| tc_t := t; tc_v := tc_v x; tc_fresh := tc_fresh x; tc_out := tc_out x; tc_commit := tc_commit x |}.
+Definition tc_set_v (v : N) (x : tc) : tc :=
+  {| tc_t := tc_t x; tc_v := v; tc_fresh := tc_fresh x; tc_out := tc_out x; tc_commit := tc_commit x |}.
+Definition tc_bump (x : tc) : tc :=
+  {| tc_t := tc_t x; tc_v := tc_v x; tc_fresh := tc_fresh x + 1; tc_out := tc_out x; tc_commit := tc_commit x |}.
+Definition tc_committed (b : block) (x : tc) : tc :=
+  {| tc_t := tc_t x; tc_v := tc_v x; tc_fresh := tc_fresh x; tc_out := tc_out x; tc_commit := Some b |}.
+
 Section Handlers.
 Variable c : ncfg.
-(* continuation: WorkerLoop.onCommit after a successful commit callback = onNewConsensusRound(block, proof, true) *)
-Variable next : node -> block -> node.
+(* the context registry as the worker sees it during one event *)
+Variable wm : option hv.
+Variable shut : bool.
 
-Definition with_term (t : tstate) (n : node) : node := upd_term (Some t) n.
+Definition ctx_ok (k : hv) : bool :=
+  negb shut && match wm with Some w => negb (hv_lt k w) | None => true end.
 
 (* initView: State.SetView + RegisterOnElection; None when SetView refuses *)
-Definition init_view (v : N) (n : node) : option node :=
-  if N.ltb v (n_v n) then None else Some (emit (OArm (n_h n) v) (set_view v n)).
+Definition init_view (v : N) (x : tc) : option tc :=
+  if N.ltb v (tc_v x) then None else Some (tc_emit (OArm (t_h (tc_t x)) v) (tc_set_v v x)).
 
-Definition send_all (t : tstate) (m : msg) (n : node) : node := emit (OSend (others c (t_cm t)) m) n.
+Definition send_all (m : msg) (x : tc) : tc := tc_emit (OSend (others c (t_cm (tc_t x))) m) x.
 
 (* isPreprepared *)
-Definition is_preprepared (t : tstate) (v x : N) : option ppent :=
+Definition is_preprepared (t : tstate) (v h : N) : option ppent :=
   match get_pp t v with
-  | Some e => match pe_blk e with Some _ => if N.eqb (r_hash (pe_ref e)) x then Some e else None | None => None end
+  | Some e => match pe_blk e with Some _ => if N.eqb (r_hash (pe_ref e)) h then Some e else None | None => None end
   | None => None
   end.
 
 (* checkCommitted *)
-Definition check_committed (t : tstate) (n : node) (v x : N) : node :=
-  if t_committed t then with_term t n else
-  match is_preprepared t v x with
-  | None => with_term t n
+Definition check_committed (x : tc) (v h : N) : tc :=
+  let t := tc_t x in
+  if t_committed t then x else
+  match is_preprepared t v h with
+  | None => x
   | Some e =>
-    let cs := bucket (t_c t) v x in
-    if negb (isQ_ids (t_cm t) (map s_id cs)) then with_term t n else
-    if negb (ctx_for n (t_h t, MAXVIEW)) then with_term t n else
+    let cs := bucket (t_c t) v h in
+    if negb (isQ_ids (t_cm t) (map s_id cs)) then x else
+    if negb (ctx_ok (t_h t, MAXVIEW)) then x else
     match pe_blk e with
-    | None => with_term t n
+    | None => x
     | Some b =>
-      let cref := mk_ref T_COMMIT c (t_h t) v x in
-      let n1 := if memN (c_me c) (map s_id cs) then n else send_all t (MC cref (my_sig c) true) n in
-      let t1 := set_committed t in
-      let n2 := emit (OCommit b cref (sort_by s_id cs) true) (with_term t1 n1) in
-      if memN (b_height b) (c_failcommit c) then n2 else next n2 b
+      let cref := mk_ref T_COMMIT c (t_h t) v h in
+      let x1 := if memN (c_me c) (map s_id cs) then x else send_all (MC cref (my_sig c) true) x in
+      tc_committed b (tc_emit (OCommit b cref (sort_by s_id cs) true) (tc_set_t (set_committed t) x1))
     end
   end.
 
-(* onPreparedLocally + checkPreparedLocally *)
-Definition check_prepared (t : tstate) (n : node) (v x : N) : node :=
-  match t_prepared t with
-  | Some pv => if N.eqb pv v then with_term t n else
-      match is_preprepared t v x with
-      | None => with_term t n
-      | Some e =>
-        if isQ_ids (t_cm t) (map s_id (bucket (t_p t) v x) ++ [s_id (pe_snd e)]) then
-          let t1 := store_c v x (my_sig c) (set_prepared v t) in
-          let n1 := send_all t1 (MC (mk_ref T_COMMIT c (t_h t) v x) (my_sig c) true) n in
-          check_committed t1 n1 v x
-        else with_term t n
-      end
-  | None =>
-      match is_preprepared t v x with
-      | None => with_term t n
-      | Some e =>
-        if isQ_ids (t_cm t) (map s_id (bucket (t_p t) v x) ++ [s_id (pe_snd e)]) then
-          let t1 := store_c v x (my_sig c) (set_prepared v t) in
-          let n1 := send_all t1 (MC (mk_ref T_COMMIT c (t_h t) v x) (my_sig c) true) n in
-          check_committed t1 n1 v x
-        else with_term t n
-      end
+(* checkPreparedLocally + onPreparedLocally *)
+Definition check_prepared (x : tc) (v h : N) : tc :=
+  let t := tc_t x in
+  if match t_prepared t with Some pv => N.eqb pv v | None => false end then x else
+  match is_preprepared t v h with
+  | None => x
+  | Some e =>
+    if isQ_ids (t_cm t) (map s_id (bucket (t_p t) v h) ++ [s_id (pe_snd e)]) then
+      let t1 := store_c v h (my_sig c) (set_prepared v t) in
+      let x0 := if has_c t v h (c_me c) then x else tc_emit (OStore T_COMMIT (t_h t) v h (c_me c)) x in
+      let x1 := send_all (MC (mk_ref T_COMMIT c (t_h t) v h) (my_sig c) true) (tc_set_t t1 x0) in
+      check_committed x1 v h
+    else x
   end.
 
 (* processPreprepare *)
-Definition process_pp (t : tstate) (n : node) (r : bref) (s : ssig) (b : option block) : node :=
-  if negb (N.eqb (n_v n) (r_view r)) then with_term t n else
-  let t1 := store_p (r_view r) (r_hash r) (my_sig c)
-              (store_pp (r_view r) {| pe_ref := r; pe_snd := s; pe_blk := b |} t) in
-  let n1 := send_all t1 (MP (mk_ref T_PREPARE c (r_height r) (r_view r) (r_hash r)) (my_sig c)) n in
-  check_prepared t1 n1 (r_view r) (r_hash r).
+Definition process_pp (x : tc) (r : bref) (s : ssig) (b : option block) : tc :=
+  let t := tc_t x in
+  if negb (N.eqb (tc_v x) (r_view r)) then x else
+  let t0 := store_pp (r_view r) {| pe_ref := r; pe_snd := s; pe_blk := b |} t in
+  let t1 := store_p (r_view r) (r_hash r) (my_sig c) t0 in
+  let x0 := if has_pp t (r_view r) then x else tc_emit (OStore T_PREPREPARE (t_h t) (r_view r) (r_hash r) (s_id s)) x in
+  let x0' := if has_p t0 (r_view r) (r_hash r) (c_me c) then x0 else tc_emit (OStore T_PREPARE (t_h t) (r_view r) (r_hash r) (c_me c)) x0 in
+  let x1 := send_all (MP (mk_ref T_PREPARE c (r_height r) (r_view r) (r_hash r)) (my_sig c)) (tc_set_t t1 x0') in
+  check_prepared x1 (r_view r) (r_hash r).
 
 (* validatePreprepare *)
 Definition validate_pp (t : tstate) (r : bref) (s : ssig) : bool :=
@@ -293,89 +310,99 @@ Definition validate_pp (t : tstate) (r : bref) (s : ssig) : bool :=
     && N.eqb (s_id s) (leaderOf (t_cm t) (r_view r)) end.
 
 (* HandlePrePrepare *)
-Definition handle_pp (t : tstate) (n : node) (r : bref) (s : ssig) (b : option block) : node :=
-  if negb (validate_pp t r s) then with_term t n else
-  if negb (ctx_for n (r_height r, r_view r)) then with_term t n else
-  if negb (validProposal (c_me c) (r_height r) b (r_hash r)) then with_term t n else
-  process_pp t n r s b.
+Definition handle_pp (x : tc) (r : bref) (s : ssig) (b : option block) : tc :=
+  if negb (validate_pp (tc_t x) r s) then x else
+  if negb (ctx_ok (r_height r, r_view r)) then x else
+  if negb (validProposal (c_me c) (r_height r) b (r_hash r)) then x else
+  process_pp x r s b.
 
 (* HandlePrepare *)
-Definition handle_p (t : tstate) (n : node) (r : bref) (s : ssig) : node :=
-  if negb (N.eqb (r_type r) T_PREPARE) then with_term t n else
-  if negb (isMember (t_cm t) (s_id s)) then with_term t n else
-  if negb (s_ok s) then with_term t n else
-  if N.ltb (r_view r) (n_v n) then with_term t n else
-  if N.eqb (s_id s) (leaderOf (t_cm t) (r_view r)) then with_term t n else
-  check_prepared (store_p (r_view r) (r_hash r) s t) n (r_view r) (r_hash r).
+Definition handle_p (x : tc) (r : bref) (s : ssig) : tc :=
+  let t := tc_t x in
+  if negb (N.eqb (r_type r) T_PREPARE) then x else
+  if negb (isMember (t_cm t) (s_id s)) then x else
+  if negb (s_ok s) then x else
+  if N.ltb (r_view r) (tc_v x) then x else
+  if N.eqb (s_id s) (leaderOf (t_cm t) (r_view r)) then x else
+  let x0 := if has_p t (r_view r) (r_hash r) (s_id s) then x else tc_emit (OStore T_PREPARE (t_h t) (r_view r) (r_hash r) (s_id s)) x in
+  check_prepared (tc_set_t (store_p (r_view r) (r_hash r) s t) x0) (r_view r) (r_hash r).
 
 (* share filter (ConsensusMessagesFilter) + HandleCommit *)
-Definition handle_c (t : tstate) (n : node) (r : bref) (s : ssig) (share_ok : bool) : node :=
-  if negb share_ok then with_term t n else
-  if negb (N.eqb (r_type r) T_COMMIT) then with_term t n else
-  if negb (isMember (t_cm t) (s_id s)) then with_term t n else
-  if negb (s_ok s) then with_term t n else
-  check_committed (store_c (r_view r) (r_hash r) s t) n (r_view r) (r_hash r).
+Definition handle_c (x : tc) (r : bref) (s : ssig) (share_ok : bool) : tc :=
+  let t := tc_t x in
+  if negb share_ok then x else
+  if negb (N.eqb (r_type r) T_COMMIT) then x else
+  if negb (isMember (t_cm t) (s_id s)) then x else
+  if negb (s_ok s) then x else
+  let x0 := if has_c t (r_view r) (r_hash r) (s_id s) then x else tc_emit (OStore T_COMMIT (t_h t) (r_view r) (r_hash r) (s_id s)) x in
+  check_committed (tc_set_t (store_c (r_view r) (r_hash r) s t) x0) (r_view r) (r_hash r).
 
 (* preparedmessages.ExtractPreparedMessages + CreatePreparedProofBuilderFromPreparedMessages; the bool is "panicked" *)
 Definition extract_proof (t : tstate) (pv : N) : option (pproof * option block) * bool :=
   match get_pp t pv with
   | None => (None, false)
   | Some e =>
-    let x := r_hash (pe_ref e) in
-    let ps := bucket (t_p t) pv x in
+    let h := r_hash (pe_ref e) in
+    let ps := bucket (t_p t) pv h in
     if negb (isQ_ids (t_cm t) (map s_id ps ++ [s_id (pe_snd e)])) then (None, false) else
     if negb (existsb (fun en => N.eqb (fst (fst en)) pv) (t_p t)) then (None, false) else   (* GetPrepareMessages: !ok *)
     match ps with
     | [] => (None, true)                                                                    (* prepareMessages[0] *)
     | _ =>
       (Some ({| pf_ppref := {| r_type := T_PREPREPARE; r_inst := r_inst (pe_ref e); r_height := r_height (pe_ref e);
-                               r_view := r_view (pe_ref e); r_hash := x |};
+                               r_view := r_view (pe_ref e); r_hash := h |};
                 pf_ppsnd := pe_snd e;
-                pf_pref := {| r_type := T_PREPARE; r_inst := c_inst c; r_height := t_h t; r_view := pv; r_hash := x |};
+                pf_pref := {| r_type := T_PREPARE; r_inst := c_inst c; r_height := t_h t; r_view := pv; r_hash := h |};
                 pf_psnds := sort_by s_id ps |}, pe_blk e), false)
     end
   end.
 
 (* onElectedByViewChange *)
-Definition on_elected (t : tstate) (n : node) (v : N) (vs : list (vote * option block)) : node :=
-  let t1 := set_latest v t in
-  match init_view v n with
-  | None => with_term t1 n
-  | Some n1 =>
-    let go (b : block) (x : N) (n2 : node) : node :=
-      let ppr := mk_ref T_PREPREPARE c (n_h n2) v x in
-      let nv := MNV T_NEW_VIEW (c_inst c) (n_h n2) v (sort_by (fun vt => s_id (v_snd vt)) (map fst vs)) (my_sig c) ppr (my_sig c) (Some b) in
+Definition on_elected (x : tc) (v : N) (vs : list (vote * option block)) : tc :=
+  let x0 := tc_set_t (set_latest v (tc_t x)) x in
+  match init_view v x0 with
+  | None => x0
+  | Some x1 =>
+    let go (b : block) (h : N) (x2 : tc) : tc :=
+      let t1 := tc_t x2 in
+      let ppr := mk_ref T_PREPREPARE c (t_h t1) v h in
+      let nv := MNV T_NEW_VIEW (c_inst c) (t_h t1) v (map fst vs) (my_sig c) ppr (my_sig c) (Some b) in
       let t2 := store_pp v {| pe_ref := ppr; pe_snd := my_sig c; pe_blk := Some b |} t1 in
-      send_all t2 nv (with_term t2 n2) in
+      let x3 := if has_pp t1 v then x2 else tc_emit (OStore T_PREPREPARE (t_h t1) v h (c_me c)) x2 in
+      send_all nv (tc_set_t t2 x3) in
     match latest_block vs with
-    | Some (b, x) => go b x n1
+    | Some (b, h) => go b h x1
     | None =>
-      if negb (ctx_for n1 (n_h n1, n_v n1)) then with_term t1 n1 else
-      let b := {| b_height := n_h n1; b_id := fresh_id (c_me c) (n_fresh n1); b_bad := [] |} in
-      go b (b_id b) (bump_fresh n1)
+      if negb (ctx_ok (t_h (tc_t x1), tc_v x1)) then x1 else
+      let b := {| b_height := t_h (tc_t x1); b_id := fresh_id (c_me c) (tc_fresh x1); b_bad := [] |} in
+      go b (b_id b) (tc_bump x1)
     end
   end.
 
 (* checkElected *)
-Definition check_elected (t : tstate) (n : node) (v : N) : node :=
-  if N.leb v (t_latest t) then with_term t n else
+Definition check_elected (x : tc) (v : N) : tc :=
+  let t := tc_t x in
+  if N.leb v (t_latest t) then x else
   let vs := votes_of t v in
   match vs with
-  | [] => with_term t n
-  | _ => if isQ_ids (t_cm t) (map (fun e => s_id (v_snd (fst e))) vs) then on_elected t n v vs else with_term t n
+  | [] => x
+  | _ => if isQ_ids (t_cm t) (map (fun e => s_id (v_snd (fst e))) vs) then on_elected x v vs else x
   end.
 
 (* HandleViewChange *)
-Definition handle_vc (t : tstate) (n : node) (vt : vote) (b : option block) : node :=
-  if negb (N.eqb (leaderOf (t_cm t) (v_view vt)) (c_me c)) then with_term t n else
-  if N.ltb (v_view vt) (n_v n) then with_term t n else
-  if negb (vote_valid c (t_cm t) (n_h n) vt) then with_term t n else
+Definition handle_vc (x : tc) (vt : vote) (b : option block) : tc :=
+  let t := tc_t x in
+  if negb (N.eqb (leaderOf (t_cm t) (v_view vt)) (c_me c)) then x else
+  if N.ltb (v_view vt) (tc_v x) then x else
+  if negb (vote_valid c (t_cm t) (t_h t) vt) then x else
+  let accept :=
+    let x0 := if has_vc t (v_view vt) (s_id (v_snd vt)) then x else tc_emit (OStore T_VIEW_CHANGE (t_h t) (v_view vt) 0 (s_id (v_snd vt))) x in
+    check_elected (tc_set_t (store_vc (v_view vt) vt b t) x0) (v_view vt) in
   match b, v_proof vt with
-  | None, Some _ => with_term t n
-  | Some _, None => with_term t n                                     (* ValidateBlockCommitment against the empty hash *)
-  | Some _, Some p => if commitsTo (v_height vt) b (r_hash (pf_ppref p))
-                      then check_elected (store_vc (v_view vt) vt b t) n (v_view vt) else with_term t n
-  | None, None => check_elected (store_vc (v_view vt) vt b t) n (v_view vt)
+  | None, Some _ => x
+  | Some _, None => x                                     (* ValidateBlockCommitment against the empty hash *)
+  | Some _, Some p => if commitsTo (v_height vt) b (r_hash (pf_ppref p)) then accept else x
+  | None, None => accept
   end.
 
 (* validateViewChangeVotes *)
@@ -385,67 +412,102 @@ Definition votes_ok (t : tstate) (h v : N) (vs : list vote) : bool :=
   && nodupN (map (fun vt => s_id (v_snd vt)) vs).
 
 (* HandleNewView *)
-Definition handle_nv (t : tstate) (n : node) (nty ninst nh nvw : N) (vs : list vote) (s : ssig) (pp : bref) (pps : ssig) (b : option block) : node :=
-  if N.ltb nvw (n_v n) then with_term t n else
-  if negb (N.eqb nty T_NEW_VIEW) then with_term t n else
-  if negb (s_ok s) then with_term t n else
-  if negb (N.eqb (s_id s) (leaderOf (t_cm t) nvw)) then with_term t n else
-  if negb (votes_ok t nh nvw vs) then with_term t n else
-  if negb (N.eqb (r_view pp) nvw) then with_term t n else
-  if negb (N.eqb (r_height pp) nh) then with_term t n else
-  if negb (forallb (vote_valid c (t_cm t) (n_h n)) vs) then with_term t n else
-  let cont (n0 : node) : node :=
-    if negb (validate_pp t pp pps) then with_term t n0 else
-    let t1 := set_latest nvw t in
-    match init_view nvw n0 with
-    | None => with_term t1 n0
-    | Some n1 => process_pp t1 n1 pp pps b
+Definition handle_nv (x : tc) (nty ninst nh nvw : N) (vs : list vote) (s : ssig) (pp : bref) (pps : ssig) (b : option block) : tc :=
+  let t := tc_t x in
+  if N.ltb nvw (tc_v x) then x else
+  if negb (N.eqb nty T_NEW_VIEW) then x else
+  if negb (s_ok s) then x else
+  if negb (N.eqb (s_id s) (leaderOf (t_cm t) nvw)) then x else
+  if negb (votes_ok t nh nvw vs) then x else
+  if negb (N.eqb (r_view pp) nvw) then x else
+  if negb (N.eqb (r_height pp) nh) then x else
+  if negb (forallb (vote_valid c (t_cm t) (t_h t)) vs) then x else
+  let cont :=
+    if negb (validate_pp t pp pps) then x else
+    let x0 := tc_set_t (set_latest nvw t) x in
+    match init_view nvw x0 with
+    | None => x0
+    | Some x1 => process_pp x1 pp pps b
     end in
   match latest_vote vs with
   | Some lv =>
     match v_proof lv with
     | Some p =>
-      let x := r_hash (pf_ppref p) in
-      if negb (commitsTo nh b x) then with_term t n else
-      if negb (N.eqb (r_hash pp) x) then with_term t n else cont n
-    | None => with_term t n
+      let h := r_hash (pf_ppref p) in
+      if negb (commitsTo nh b h) then x else
+      if negb (N.eqb (r_hash pp) h) then x else cont
+    | None => x
     end
   | None =>
-    if negb (ctx_for n (nh, nvw)) then with_term t n else
-    if negb (validProposal (c_me c) (r_height pp) b (r_hash pp)) then with_term t n else cont n
+    if negb (ctx_ok (nh, nvw)) then x else
+    if negb (validProposal (c_me c) (r_height pp) b (r_hash pp)) then x else cont
   end.
 
-(* moveToNextLeaderByElection *)
-Definition move_to_next_leader (t : tstate) (n : node) (h v : N) : node :=
-  if negb (N.eqb h (n_h n) && N.eqb v (n_v n)) then with_term t n else
-  match init_view (wrap64 (v + 1)) n with
-  | None => with_term t n
-  | Some n1 =>
-    let v1 := n_v n1 in
+(* moveToNextLeaderByElection(h, v) *)
+Definition move_to_next_leader (x : tc) (h v : N) : tc :=
+  let t := tc_t x in
+  if negb (N.eqb h (t_h t) && N.eqb v (tc_v x)) then x else
+  match init_view (wrap64 (v + 1)) x with
+  | None => x
+  | Some x1 =>
+    let v1 := tc_v x1 in
     let res := match t_prepared t with Some pv => extract_proof t pv | None => (None, false) end in
-    if snd res then emit OPanic (with_term t n1) else
+    if snd res then tc_emit OPanic x1 else
     let prf := match fst res with Some (p, _) => Some p | None => None end in
     let blk := match fst res with Some (_, ob) => ob | None => None end in
-    let vt := {| v_type := T_VIEW_CHANGE; v_inst := c_inst c; v_height := n_h n1; v_view := v1; v_proof := prf; v_snd := my_sig c |} in
+    let vt := {| v_type := T_VIEW_CHANGE; v_inst := c_inst c; v_height := t_h t; v_view := v1; v_proof := prf; v_snd := my_sig c |} in
     if N.eqb (leaderOf (t_cm t) v1) (c_me c)
-    then check_elected (store_vc v1 vt blk t) n1 v1
-    else emit (OSend [leaderOf (t_cm t) v1] (MVC vt blk)) (with_term t n1)
+    then let x2 := if has_vc t v1 (c_me c) then x1 else tc_emit (OStore T_VIEW_CHANGE (t_h t) v1 0 (c_me c)) x1 in
+         check_elected (tc_set_t (store_vc v1 vt blk t) x2) v1
+    else tc_emit (OSend [leaderOf (t_cm t) v1] (MVC vt blk)) x1
   end.
 
 (* ConsensusMessagesFilter.HandleConsensusMessage: dispatch on the envelope kind *)
-Definition term_handle (n : node) (m : msg) : node :=
-  match n_term n with
-  | None => n                                                   (* out of committee *)
-  | Some t =>
-    match m with
-    | MPP r s b => handle_pp t n r s b
-    | MP r s => handle_p t n r s
-    | MC r s o => handle_c t n r s o
-    | MVC vt b => handle_vc t n vt b
-    | MNV ty i h v vs s pp pps b => handle_nv t n ty i h v vs s pp pps b
-    end
+Definition thandle (x : tc) (m : msg) : tc :=
+  match m with
+  | MPP r s b => handle_pp x r s b
+  | MP r s => handle_p x r s
+  | MC r s o => handle_c x r s o
+  | MVC vt b => handle_vc x vt b
+  | MNV ty i h v vs s pp pps b => handle_nv x ty i h v vs s pp pps b
+  end.
+
+(* startTerm *)
+Definition start_term (x : tc) (lead : bool) : tc :=
+  let t := tc_t x in
+  match init_view 0 x with
+  | None => x
+  | Some x1 =>
+    if N.ltb 1 (t_h t) && negb lead then x1 else
+    if negb (N.eqb (leaderOf (t_cm t) 0) (c_me c)) then x1 else
+    if negb (ctx_ok (t_h t, 0)) then x1 else
+    let b := {| b_height := t_h t; b_id := fresh_id (c_me c) (tc_fresh x1); b_bad := [] |} in
+    let ppr := mk_ref T_PREPREPARE c (t_h t) 0 (b_id b) in
+    let t1 := store_pp 0 {| pe_ref := ppr; pe_snd := my_sig c; pe_blk := Some b |} t in
+    tc_emit (OSend (others c (t_cm t)) (MPP ppr (my_sig c) (Some b)))
+      (tc_emit (OStore T_PREPREPARE (t_h t) 0 (b_id b) (c_me c)) (tc_set_t t1 (tc_bump x1)))
   end.
 End Handlers.
+
+(* ---- node-level glue: run a term handler on the node's current term and write the result back ---- *)
+Definition tc_of (n : node) (t : tstate) : tc :=
+  {| tc_t := t; tc_v := n_v n; tc_fresh := n_fresh n; tc_out := []; tc_commit := None |}.
+Definition write_back (x : tc) (n : node) : node :=
+  {| n_h := n_h n; n_v := tc_v x; n_wm := n_wm n; n_shut := n_shut n; n_maxsync := n_maxsync n; n_hasterm := n_hasterm n;
+     n_term := Some (tc_t x); n_cache := n_cache n; n_latest := n_latest n; n_fresh := tc_fresh x;
+     n_out := tc_out x ++ n_out n; n_oof := n_oof n |}.
+(* WorkerLoop.onCommit: the commit callback was invoked (OCommit is in the outputs); on success the next round starts *)
+Definition finish (c : ncfg) (next : node -> block -> node) (x : tc) (n : node) : node :=
+  let n' := write_back x n in
+  match tc_commit x with
+  | Some b => if memN (b_height b) (c_failcommit c) then n' else next n' b
+  | None => n'
+  end.
+Definition term_handle (c : ncfg) (next : node -> block -> node) (n : node) (m : msg) : node :=
+  match n_term n with
+  | None => n                                                   (* out of committee *)
+  | Some t => finish c next (thandle c (n_wm n) (n_shut n) (tc_of n t) m) n
+  end.
 
 (* ---- raw message filter at node level (as Filter.v, with real messages) ---- *)
 Fixpoint lookupM (h : N) (cch : list (N * list msg)) : list msg :=
@@ -478,20 +540,6 @@ Definition install (h : N) (hasterm : bool) (t : option tstate) (n : node) : nod
   {| n_h := h; n_v := 0; n_wm := n_wm n; n_shut := n_shut n; n_maxsync := n_maxsync n; n_hasterm := hasterm;
      n_term := t; n_cache := n_cache n; n_latest := n_latest n; n_fresh := n_fresh n; n_out := n_out n; n_oof := n_oof n |}.
 
-(* startTerm *)
-Definition start_term (c : ncfg) (t : tstate) (n : node) (lead : bool) : node :=
-  match init_view 0 n with
-  | None => upd_term (Some t) n
-  | Some n1 =>
-    if N.ltb 1 (n_h n1) && negb lead then upd_term (Some t) n1 else
-    if negb (N.eqb (leaderOf (t_cm t) 0) (c_me c)) then upd_term (Some t) n1 else
-    if negb (ctx_for n1 (n_h n1, 0)) then upd_term (Some t) n1 else
-    let b := {| b_height := n_h n1; b_id := fresh_id (c_me c) (n_fresh n1); b_bad := [] |} in
-    let ppr := mk_ref T_PREPREPARE c (n_h n1) 0 (b_id b) in
-    let t1 := store_pp 0 {| pe_ref := ppr; pe_snd := my_sig c; pe_blk := Some b |} t in
-    emit (OSend (others c (t_cm t)) (MPP ppr (my_sig c) (Some b))) (upd_term (Some t1) (bump_fresh n1))
-  end.
-
 Fixpoint drain (hd : node -> msg -> node) (h : N) (msgs : list msg) (n : node) : node :=
   match msgs with
   | [] => n
@@ -511,7 +559,8 @@ Fixpoint new_round (fuel : nat) (c : ncfg) (n : node) (prev : option block) (lea
     let cm := committee_at c h in
     let participating := ctx_for n1 (h, MAXVIEW) && isMember cm (c_me c) in
     let next := fun n' b => new_round f c n' (Some b) true in
-    let n2 := if participating then start_term c (new_tstate h cm) n1 lead else n1 in
+    let n2 := if participating
+              then write_back (start_term c (n_wm n1) (n_shut n1) (tc_of n1 (new_tstate h cm)) lead) n1 else n1 in
     let n3 := emit (ONewRound h prev lead) n2 in
     (* ConsumeCacheMessages *)
     let cch := filter (fun e => negb (N.ltb (fst e) h)) (n_cache n3) in
@@ -544,7 +593,7 @@ Definition step (c : ncfg) (n : node) (e : event) : node :=
       if negb (ctx_for n1 (h, wrap64 (v + 1))) then n1 else
       if negb (N.eqb h (n_h n1) && N.eqb v (n_v n1)) then n1 else
       match n_term n1 with
-      | Some t => move_to_next_leader c t n1 h v
+      | Some t => write_back (move_to_next_leader c (n_wm n1) (n_shut n1) (tc_of n1 t) h v) n1
       | None => n1
       end
   | ESync prev =>
